@@ -65,6 +65,27 @@ type Gen struct {
 	// NestedDefaults: slices of slices with a nested Default, and PostTransforms that modify the first leaf of
 	// the destination IN PLACE (kind incdeep)
 	NestedDefaults bool
+	// LongSlices: one slice per case has a length around a decimal / power-of-two boundary (9..11, 99..102,
+	// 127..129, 255..257, and 999..1001 over primitives): element positions of every width in the paths
+	LongSlices bool
+	longUsed   bool
+	// TopKind: kind of the root node ("" = any)
+	TopKind string
+}
+
+// longLen picks the length of the long slice of a LongSlices case (0: not this slice)
+func (g *Gen) longLen(elem *Node) int {
+	if !g.LongSlices || g.longUsed {
+		return 0
+	}
+	lens := []int{9, 10, 11, 99, 100, 101, 102, 110, 127, 128, 129, 255, 256, 257}
+	if elem.Kind == "prim" {
+		lens = append(lens, 999, 1000, 1001, 101, 101)
+	} else if g.R.P(1, 2) {
+		return 0
+	}
+	g.longUsed = true
+	return rng.Pick(g.R, lens)
 }
 
 // AliasCase: Validate of an empty [][]T value against Slice(Slice(prim)) with a nested Default and in-place
@@ -758,6 +779,9 @@ func (g *Gen) Input(n *Node) V {
 		if g.Deep {
 			k = rng.Pick(r, []int{2, 2, 3})
 		}
+		if l := g.longLen(n.Elem); l > 0 {
+			k = l
+		}
 		out := V{K: "l"}
 		for i := 0; i < k; i++ {
 			out.L = append(out.L, g.Input(n.Elem))
@@ -842,6 +866,9 @@ func (g *Gen) DestValue(n *Node, zeroP int) D {
 			return D{K: "sl"}
 		}
 		k := r.Range(lo, 3)
+		if l := g.longLen(n.Elem); l > 0 {
+			k = l
+		}
 		out := D{K: "sl"}
 		for i := 0; i < k; i++ {
 			out.L = append(out.L, g.DestValue(n.Elem, zeroP))
@@ -913,8 +940,12 @@ func (g *Gen) Case(id int) *Case {
 		}
 	}
 	c.Schema = g.Node(0)
+	if g.TopKind != "" {
+		c.Schema = g.NodeOf(g.TopKind, 0)
+	}
 	if g.FmtModes {
-		c.Fmt = rng.Pick(r, []string{"", "", "exec:en", "exec:es", "i18n:-", "i18n:es", "i18n:en", "i18n:fr"})
+		c.Fmt = rng.Pick(r, []string{"", "", "exec:en", "exec:es", "i18n:-", "i18n:es", "i18n:en", "i18n:fr",
+			"i18nh:locale:locale=es", "i18nh:locale:lang=es", "i18nh:locale,-:lang=es,locale=en", "i18nh:-,locale:lang=en,locale=es", "i18nh:a,b,-:a=es,b=es", "i18nh:a,b:a=es,lang=es"})
 	}
 	if g.Prepop {
 		c.Mode = "p"
